@@ -2,7 +2,11 @@ package c12
 
 import (
 	"bytes"
+	"encoding/base64"
 	"fmt"
+	"image"
+	"image/color"
+	"image/png"
 	"math"
 	"os"
 	"strings"
@@ -115,13 +119,14 @@ func TestSVGInterp(t *testing.T) {
 	}
 }
 
-func buildPDF(content string, resources string) []byte {
+func buildPDF(content string, resources string, extra ...string) []byte {
 	objs := []string{
 		"<</Type/Catalog/Pages 2 0 R>>",
 		fmt.Sprintf("<</Type/Pages/Kids[3 0 R]/Count 1/MediaBox[0 0 %.6f %.6f]>>", CW/mmPerPt, CH/mmPerPt),
 		"<</Type/Page/Parent 2 0 R/Resources<<" + resources + ">>/Contents 4 0 R>>",
 		fmt.Sprintf("<</Length %d>>stream\n%s\nendstream", len(content), content),
 	}
+	objs = append(objs, extra...)
 	var b bytes.Buffer
 	b.WriteString("%PDF-1.7\n%\xe2\xe3\xcf\xd3\n")
 	offs := make([]int, len(objs))
@@ -235,6 +240,14 @@ func TestShow(t *testing.T) {
 	var p program
 	for _, f := range strings.Split(spec, ",") {
 		var d draw
+		if strings.HasPrefix(f, "i") {
+			// i<image 1..>:<res>:<view>:<cs>
+			if n, _ := fmt.Sscanf(f[1:], "%d:%d:%d:%d", &d.img, &d.res, &d.view, &d.cs); n == 0 {
+				t.Fatal(f)
+			}
+			p = append(p, d)
+			continue
+		}
 		n, _ := fmt.Sscanf(f, "%d:%d:%d:%d", &d.style, &d.path, &d.view, &d.cs)
 		if n == 0 {
 			t.Fatal(f)
@@ -266,4 +279,58 @@ func TestShowGradient(t *testing.T) {
 			fmt.Printf("VIOLATION %s: %s\n", v.Class, clipStr(v.Detail, 1500))
 		}
 	}
+}
+
+func TestImageInterpreters(t *testing.T) {
+	// the same 2x1 image (red, then green at alpha 0.5) placed on [10,14] x [5,7] mm by each format
+	want := [4]oracle.Pt{{X: 10, Y: 7}, {X: 14, Y: 7}, {X: 14, Y: 5}, {X: 10, Y: 5}}
+	check := func(name string, dl *displayList, alpha bool) {
+		t.Helper()
+		if len(dl.problems) != 0 || len(dl.items) != 1 || dl.items[0].paint.img == nil {
+			t.Fatalf("%s: %v, %d items", name, dl.problems, len(dl.items))
+		}
+		im := dl.items[0].paint.img
+		for k := range want {
+			if im.corners[k].Dist(want[k]) > 1e-5 {
+				t.Errorf("%s: corner %d at %v, want %v", name, k, im.corners[k], want[k])
+			}
+		}
+		c0, _ := im.at(oracle.Pt{X: 11, Y: 6})
+		c1, ok := im.at(oracle.Pt{X: 13, Y: 6})
+		a := 1.0
+		if alpha {
+			a = 128.0 / 255
+		}
+		if !coloursClose(c0, colour{1, 0, 0, 1}, false) || !ok || !coloursClose(c1, colour{0, 1, 0, a}, false) {
+			t.Errorf("%s: pixels %v %v", name, c0, c1)
+		}
+		if _, ok := im.at(oracle.Pt{X: 9.9, Y: 6}); ok {
+			t.Errorf("%s: paints outside", name)
+		}
+	}
+	// PostScript: hex data behind ASCIIHexDecode, rows top to bottom through ImageMatrix [w 0 0 -h 0 h]
+	ps := "%!PS\n%%BoundingBox: 0 0 114 69\n2.8346457 dup scale gsave /DeviceRGB setcolorspace [4 0 0 2 10 5] concat" +
+		"<</ImageType 1 /Width 2 /Height 1 /BitsPerComponent 8 /Decode [0 1 0 1 0 1] /Interpolate true /ImageMatrix [2 0 0 -1 0 1] /DataSource currentfile /ASCIIHexDecode filter>>image\nff0000 00ff00>\n grestore 1 1 moveto 2 1 lineto 2 2 lineto fill"
+	dl, _, ok := interpretPS([]byte(ps))
+	if !ok || len(dl.items) != 2 {
+		t.Fatalf("ps: units %v, %d items, %v", ok, len(dl.items), dl.problems)
+	}
+	dl.items = dl.items[:1]
+	check("ps", dl, false)
+	// PDF: unit square through the CTM, first row on top, SMask gives alpha
+	k := 1 / mmPerPt
+	content := fmt.Sprintf("%.7f 0 0 %.7f 0 0 cm q 4 0 0 2 10 5 cm /Im0 Do Q", k, k)
+	pdf := buildPDF(content, "/XObject<</Im0 5 0 R>>",
+		"<</Type/XObject/Subtype/Image/Width 2/Height 1/ColorSpace/DeviceRGB/BitsPerComponent 8/SMask 6 0 R/Filter/ASCIIHexDecode/Length 14>>stream\nff000000ff00>\nendstream",
+		"<</Type/XObject/Subtype/Image/Width 2/Height 1/ColorSpace/DeviceGray/BitsPerComponent 8/Filter/ASCIIHexDecode/Length 5>>stream\nff80>\nendstream")
+	check("pdf", interpretPDF(pdf), true)
+	// SVG: viewport x,y,width,height in the user space of a translated group, y down
+	img := image.NewNRGBA(image.Rect(0, 0, 2, 1))
+	img.SetNRGBA(0, 0, color.NRGBA{255, 0, 0, 255})
+	img.SetNRGBA(1, 0, color.NRGBA{0, 255, 0, 128})
+	var pb bytes.Buffer
+	png.Encode(&pb, img)
+	svg := `<svg xmlns="http://www.w3.org/2000/svg" xmlns:xlink="http://www.w3.org/1999/xlink" width="40mm" height="24mm" viewBox="0 0 40 24"><g transform="translate(8,0)"><image x="2" y="17" width="4" height="2" xlink:href="data:image/png;base64,` +
+		base64.StdEncoding.EncodeToString(pb.Bytes()) + `"/></g></svg>`
+	check("svg", interpretSVG([]byte(svg)), true)
 }
